@@ -18,7 +18,7 @@ QUERIES = ['T.sql', 'a.sql', 'E.sql', 'i.sql', 'I.sql', 'R.sql', 'R.dbml', 'R.ta
            'db.sql', 'db.dbml', 'R2.sql', 'R2.dbml']
 
 
-PLAIN = {'ipk': False, 'iunique': False, 'apk': False, 'rtype': '>', 'r2inline': False}
+PLAIN = {'ipk': False, 'iunique': False, 'apk': False, 'rtype': '>', 'r2inline': False, 'aenum': False}
 
 
 class World:
@@ -28,7 +28,8 @@ class World:
         from pydbml.classes import Table, Column, Index, Reference, Enum, EnumItem
         self.D = Database()
         self.T = Table('t')
-        self.a, self.b = Column('a', 'int', pk=fl['apk']), Column('b', 'int')
+        self.E = Enum('e', [EnumItem('i')])
+        self.a, self.b = Column('a', self.E if fl['aenum'] else 'int', pk=fl['apk']), Column('b', 'int')
         self.T.add_column(self.a)
         self.T.add_column(self.b)
         self.c = Column('c', 'int')
@@ -39,7 +40,6 @@ class World:
         self.U.add_column(self.y)
         self.V = Table('t', schema='s2')
         self.V.add_column(Column('z', 'int'))
-        self.E = Enum('e', [EnumItem('i')])
         self.I = Index(subjects=[self.c], pk=fl['ipk'], unique=fl['iunique'])
         self.T.add_index(self.I)
         for o in (self.T, self.U, self.V, self.E):
@@ -48,7 +48,7 @@ class World:
         self.D.add(self.R)
         self.R2 = Reference('>', [self.a], [self.x], inline=fl['r2inline'])
         self.D.add(self.R2)
-        self.saved = {'tname': 't', 'tschema': 'public', 'aname': 'a', 'atype': 'int', 'ename': 'e', 'eschema': 'public', 'iname': 'i'}
+        self.saved = {'tname': 't', 'tschema': 'public', 'aname': 'a', 'atype': self.E if fl['aenum'] else 'int', 'ename': 'e', 'eschema': 'public', 'iname': 'i'}
 
     def _attr(self, a):
         return {'tname': (self.T, 'name'), 'tschema': (self.T, 'schema'), 'aname': (self.a, 'name'), 'atype': (self.a, 'type'),
@@ -142,15 +142,23 @@ def main(argv: List[str]) -> int:
         raise core.Machinery('MC_Invalid: %d histories for %d states' % (len(hists), res.distinct))
     rep.exhaustive = True
     flavours = [p[1] for p in res.prints if p and p[0] == 'F'][0]
-    if len(flavours) != 48 or PLAIN not in flavours:
+    if len(flavours) != 96 or PLAIN not in flavours:
         raise core.Machinery('MC_Invalid: flavours %r' % (flavours,))
     others = [f for f in flavours if f != PLAIN]
     items = [{'tid': i + 1, 'hist': h, 'fl': PLAIN} for i, h in enumerate(hists)]
     # every history in the plain universe; in the other flavours every history up to depth 2 (quick: plus each longer one in
     # one flavour, by rotation; thorough: every history up to depth 3 in every flavour)
-    full = 2 if core.tier() == 'quick' else 3
+    # every history in the plain universe; in the other 95 flavours: every history up to depth 1 (quick) / 2 (thorough), eight
+    # flavours by rotation one level deeper, one flavour beyond
+    full = 1 if core.tier() == 'quick' else 2
     for i, h in enumerate(hists):
-        for f in (others if len(h) <= full else [others[i % len(others)]]):
+        if len(h) <= full:
+            fs = others
+        elif len(h) == full + 1:
+            fs = [others[(i * 8 + k) % len(others)] for k in range(8)]
+        else:
+            fs = [others[i % len(others)]]
+        for f in fs:
             items.append({'tid': len(items) + 1, 'hist': h, 'fl': f})
     rep.notes['flavours'] = len(flavours)
     recs: List[Dict[str, Any]] = []
